@@ -1,5 +1,56 @@
 import GN.Url.ObjSpec
+import GN.Url.ObjLemmas
 
-/-! # C13 — a URL object stays one coherent URL under every setter and searchParams history (statements: ObjSpec.lean) -/
+/-! # C13 — a URL object stays one coherent URL under every setter and searchParams history
+
+The state machine `GN.Url.Obj` (UrlObj.lean) transcribes url/url.go + url/nodeurl.go; `Reach` (ObjSpec.lean) is the set
+of states any script can reach: any constructor call, then any sequence of setter assignments and searchParams
+operations (those that throw leave the state unchanged), with getters read at any point in between.  The statements
+are in ObjSpec.lean, the proofs in ObjLemmas.lean.  Each holds for every reachable state — every history, with no bound
+on its length.  The model is tied to the code by running both on generated histories and comparing every getter after
+every step; `href = toString() = toJSON()` is one function in the model and three getters in that comparison. -/
+
 namespace GN.Props.C13
+open GN GN.Url GN.Url.Obj
+
+/-- **searchParams lists exactly the pairs of the query; search is '' or '?'+query** — in every reachable state, in
+particular right after `search` or `href` was assigned and right after searchParams was changed -/
+theorem search_params_coherent : SearchParamsCoherent := searchParamsCoherent
+
+/-- `href` is the serialisation of the very state `search` is read from (so it shows a searchParams change at once),
+and reading the getters twice gives the same answers -/
+theorem href_shows_the_query : HrefShowsQuery := hrefShowsQuery
+
+/-- **host is hostname plus ':'+port when a port is present** -/
+theorem host_is_hostname_port : HostIsHostnamePort := hostIsHostnamePort
+
+/-- **the default port of the current scheme is never shown** — after construction, after `port`, `host`, `hostname`
+assignments and after a `protocol` change that turns the present port into a default -/
+theorem default_port_hidden : DefaultPortHidden := defaultPortHidden
+
+/-- the shown port is a decimal number -/
+theorem port_is_a_number : PortIsNumber := portIsNumber
+
+/-- percent-encoding of path, fragment and userinfo is lossless (component-wise half of "href parses again") -/
+theorem escape_round_trip : EscapeRoundTrip := escapeRoundTrip
+
+/-- re-normalising never changes a query that was normalised or serialised before -/
+theorem query_escape_stable : QueryEscapeStable := queryEscapeStable
+
+/-! non-vacuity: `http://h:81/p?a=1` is constructed, its searchParams obtained and `b=2` appended: the state is
+reachable, search shows `?a=1&b=2` and the port `81` -/
+def demoState : Option St :=
+  match construct [104,116,116,112,58,47,47,104,58,56,49,47,112,63,97,61,49] none with
+  | .ok u =>
+    match step { url := u } .getSP with
+    | .ok st1 =>
+      match step st1 (.spAppend [98] [50]) with
+      | .ok st2 => some st2
+      | _ => none
+    | _ => none
+  | _ => none
+
+example : (demoState.map fun st => ((observe st).2.search, (observe st).2.port)) =
+    some ([63,97,61,49,38,98,61,50], [56,49]) := by decide +kernel
+
 end GN.Props.C13
